@@ -63,7 +63,9 @@ Record state := State {
   lock : option tid;
   thr : tid -> thread;
   (* ghost *)
-  fsaves : ca -> nat;           (* failed Store operations of saveAccount *)
+  fsaves : ca -> nat;           (* failed Store operations of saveAccount; a newAccount whose response
+                                   is lost after the CA created the account is the sequence "registered;
+                                   the first Store fails" (same effect on every component), see Check.v *)
   crashes : ca -> nat;          (* crashes between a successful newAccount and the end of its save *)
   deletes : ca -> nat;          (* successful Deletes of deleteAccountLocally *)
   resets : ca -> nat
